@@ -1,5 +1,6 @@
 import SctpVerif.Props.C01net
 import SctpVerif.Proofs.NetSys.SelFifo
+import SctpVerif.Proofs.NetSys.SelQ
 /-!
 # C01 — the selection hypothesis of the DATA composition, discharged for FIFO selection
 
@@ -21,10 +22,18 @@ message with the fragments adjacent and in order (`C01_write_fragments`, `C01_ss
 out in that order (`C01_fifo_tsn_order`). `C01_netsys_prefix_fifo` is `C01_netsys_prefix` with `SelFifo` in the place of
 `SelContig`.
 
-What remains outside Lean: that the indices the REAL queue's answers correspond to are the model's oracle values, i.e.
-`SelFifo` itself for real runs. It is the composition of `C17_ordered_only_fifo` (PendQ model, tied by `TestVerifPendQ`)
-with the `as` correspondence harness, which logs the indices of the chunks the real queue handed out (`sel=`) and whose
-predicate `[C01,C17]` (`Driver/Assoc.lean`) checks that they are all 0 in non-interleaved, all-ordered sequences.
+`Model/NetSysQ.lean` COMPOSES the two models: next to the sender state runs the message policy `PendQ.MsgPol`, pushed every
+chunk a write appends to `pending`; the selection list of a gather is what draining that queue hands out, each chunk
+looked up by identity in the pending list (exactly how the `as` harness computes the `sel=` values it logs from the real
+queue). `C01_netsysq_selfifo`: over reliable ordered streams every selection list NetSysQ computes is all zeros;
+`C01_netsysq_prefix`: the prefix theorem for every run of NetSysQ, WITHOUT any hypothesis on the selection.
+
+What remains outside Lean: that the real `pendingQueue` and the real `pending`-order bookkeeping behave as the composed
+model says, i.e. `SelFifo` for real runs. It is tied by `TestVerifPendQ` (PendQ model vs pending_queue.go) and by the `as`
+correspondence harness, which logs the indices of the chunks the real queue handed out (`sel=`), replays them through
+`Sender.gather`, and whose predicate `[C01,C17]` (`Driver/Assoc.lean`) checks that they are all 0 in non-interleaved,
+all-ordered sequences. Also not proved: that no `pendingQueue.pop` fails in such runs (NetSysQ raises `err` and hands out
+nothing afterwards; the prefix theorem holds either way).
 -/
 namespace C01
 open NetSys SenderProofs SenderTsn
@@ -65,6 +74,32 @@ theorem C01_netsys_prefix_fifo (P : Params) (ops : List Op) (si : BitVec 16)
     (htsn : chunksWritten P ops < 2^31) (hwin : WinOk P si (2^15) (init P) ops = true) :
     readsOn P si (init P) ops <+: writesOn P si (init P) ops :=
   C01_netsys_prefix P ops si hil hrel (C01_selfifo_selcontig P ops hsel hrel) htsn hwin
+
+/-- **NetSysQ runs are NetSys runs**: the system state of a run of the composed model `NetSysQ` (NetSys + the message
+policy of the pending-queue model in the place of the selection oracle) is the state of the NetSys run on the resolved
+operation list, in which every gather carries the selection the queue model computed. -/
+theorem C01_netsysq_run (P : Params) (ops : List Op) :
+    (NetSysQ.run P (NetSysQ.init P) ops).sys = run P (init P) (NetSysQ.resolve P (NetSysQ.init P) ops) :=
+  NetSysQ.run_sys P (NetSysQ.init P) ops
+
+/-- ✱ **The pending-queue model selects FIFO over reliable ordered streams.** In every run of NetSysQ whose streams are
+all opened ordered and reliable (whatever selection lists the operations carry — they are ignored), every selection list
+the message policy produces is all zeros, and the resolved run is again over reliable ordered streams. -/
+theorem C01_netsysq_selfifo (P : Params) (ops : List Op) (hrel : Reliable ops = true) :
+    SelFifo (NetSysQ.resolve P (NetSysQ.init P) ops) = true ∧ Reliable (NetSysQ.resolve P (NetSysQ.init P) ops) = true :=
+  NetSysQ.resolve_fifo P (NetSysQ.init P) ops (NetSysQ.init_rinv P) hrel
+
+/-- ✱ **NetSysQ, DATA (no interleaving): no hypothesis on the selection.** For every run of NetSysQ — sender half, the
+message policy of `pendingQueue` choosing the chunks, adversarial network, receiver half — over reliable ordered streams,
+with any SACKs, budgets, loss marks, timer inputs, any losses / duplications / reorderings / bundlings: on every stream
+`si` the `(PPI, bytes)` read by the receiving application are a prefix of the `(PPI, bytes)` of the accepted writes. -/
+theorem C01_netsysq_prefix (P : Params) (ops : List Op) (si : BitVec 16)
+    (hil : P.cfg.useInterleaving = false) (hrel : Reliable ops = true)
+    (htsn : chunksWritten P (NetSysQ.resolve P (NetSysQ.init P) ops) < 2^31)
+    (hwin : WinOk P si (2^15) (init P) (NetSysQ.resolve P (NetSysQ.init P) ops) = true) :
+    readsOn P si (init P) (NetSysQ.resolve P (NetSysQ.init P) ops) <+:
+      writesOn P si (init P) (NetSysQ.resolve P (NetSysQ.init P) ops) :=
+  C01_netsys_prefix_fifo P _ si hil (C01_netsysq_selfifo P ops hrel).2 (C01_netsysq_selfifo P ops hrel).1 htsn hwin
 
 /-! ## tests by evaluation and non-vacuity (`decide` on concrete runs — these are tests, not theorems) -/
 
@@ -108,5 +143,32 @@ example : SelContig PD opsD = true := by decide
 
 -- test: a selection that is not FIFO (index 2 first) is rejected by `SelFifo`
 example : SelFifo [.snd (.gather Sender.freeOracle [0, 2, 3, 0, 0, 0])] = false := by decide
+
+-- NetSysQ: the same workload with ARBITRARY selection lists in the operations (ignored): the queue model resolves them
+private def opsQ : List Op :=
+  [.snd (.openS 1 false 0 0 0), .snd (.openS 2 false 0 0 0), .write 1 51, .write 2 61,
+   .snd (.gather (Sender.tlrOracle true 0) [7, 7]), .write 1 52,
+   .snd (.gather Sender.freeOracle [5, 4, 3, 2, 1, 0]),
+   .deliver [(5, false), (4, true)], .rcv (.read (1, 0) 100),
+   .deliver [(2, false), (1, false), (1, false)], .deliver [(3, false)], .rcv (.read (2, 0) 100),
+   .snd (.sack 77 65536 [] []), .snd .t3, .snd (.gather Sender.freeOracle []),
+   .deliver [(0, false), (9, false), (100, false)], .rcv (.read (1, 0) 1), .rcv (.read (1, 0) 100), .rcv (.read (1, 0) 100),
+   .rcv (.read (1, 0) 100)]
+
+-- test: the selection lists the queue model computed (4, then 6 - 1 chunks queued: the budget let one chunk through), no queue error
+set_option maxRecDepth 1000000 in
+example : ((NetSysQ.resolve PD (NetSysQ.init PD) opsQ).filterMap fun
+      | .snd (.gather _ sel) => some sel
+      | _ => none) = [[0, 0, 0, 0], [0, 0, 0, 0, 0], []] ∧
+    (NetSysQ.run PD (NetSysQ.init PD) opsQ).q.err = false := by decide
+
+set_option maxRecDepth 1000000 in
+example : readsOn PD 1 (init PD) (NetSysQ.resolve PD (NetSysQ.init PD) opsQ) = [(51, [1, 2, 3, 4, 5]), (52, [9, 8, 7])] := by decide
+
+-- non-vacuity of `C01_netsysq_prefix`
+set_option maxRecDepth 1000000 in
+example : readsOn PD 1 (init PD) (NetSysQ.resolve PD (NetSysQ.init PD) opsQ) <+:
+    writesOn PD 1 (init PD) (NetSysQ.resolve PD (NetSysQ.init PD) opsQ) :=
+  C01_netsysq_prefix PD opsQ 1 rfl (by decide) (by decide) (by decide)
 
 end C01
